@@ -109,7 +109,7 @@ Definition find_core (x1 : list Z) (ev : option Z) (f' : Z -> list Z) (cs' : Z -
     end
   end.
 
-(** Result: [None] = the call raises; [Some (Some nf, y)] = raw mode pair; [Some (None, y)] = y.
+(** Result: [None] = the call raises (no longer produced by any argument form); [Some (Some nf, y)] = raw mode pair; [Some (None, y)] = y.
     Values of f / cs_f are lists (an int-valued f is wrapped in a singleton, as the code does;
     the final unwrapping y[0] / tuple(y) is presentation only). *)
 Definition find (x : list Z) (a : aarg) (bits : bool) (e : earg)
@@ -121,16 +121,11 @@ Definition find (x : list Z) (a : aarg) (bits : bool) (e : earg)
             | None, None => Some (fun i => [i], fun b i => [i + b])
             | None, Some f => Some (f, cs_of_f f)
             | Some cs, None => Some (fun i => cs 0 i, cs)
-            | Some cs, Some f => None    (* type_f is never bound: UnboundLocalError at the end *)
+            | Some cs, Some f => Some (f, cs)   (* both given: used as they are (wrapping is presentation) *)
             end in
-  let crash := match a with                 (* type(x[0]) on an empty list: IndexError *)
-               | AInt a1 => (bits && (a1 =? 1) && (length x =? 0)%nat)%bool
-               | ASec _ => false
-               end in
   match fc with
   | None => None
   | Some (f', cs') =>
-    if crash then None else
     let ev := match e with
               | ERaw => None
               | EStr off => Some (Z.of_nat n + off)
@@ -416,7 +411,7 @@ Qed.
 Section FindCore.
 Variable f' : Z -> list Z.
 Variable cs' : Z -> Z -> list Z.
-Hypothesis cs0 : forall i, cs' 0 i = f' i.
+Hypothesis cs0 : forall i, 0 <= i -> cs' 0 i = f' i.
 Hypothesis cs1 : forall i, 0 <= i -> cs' 1 i = f' (i + 1).               (* the docstring's (star): cs_f(b, i) = f(i + b) *)
 Hypothesis flen : forall i j, length (f' i) = length (f' j).
 
@@ -431,7 +426,7 @@ Proof.
   - assert (j = S i) by lia. subst j. rewrite E. cbn [first0].
     destruct (Hb i ltac:(lia)) as [H0|H1].
     + rewrite H0. change (0 =? 0) with true. cbv iota.
-      destruct (Nat.eqb_spec i (S i)); [lia|]. rewrite cs0. reflexivity.
+      destruct (Nat.eqb_spec i (S i)); [lia|]. rewrite cs0 by lia. reflexivity.
     + rewrite H1. change (1 =? 0) with false. cbv iota. rewrite Nat.eqb_refl, cs1 by lia.
       rewrite Nat2Z.inj_succ. reflexivity.
   - set (h := (i + (j - i) / 2)%nat).
@@ -517,14 +512,13 @@ Proof.
 Qed.
 
 Definition find_wf (x : list Z) (a : aarg) (bits : bool) : Prop :=
-  (bits = true -> allbits x /\ isbit (aval a)) /\
-  ~ (bits = true /\ a = AInt 1 /\ x = []).
+  bits = true -> allbits x /\ isbit (aval a).
 
 Lemma find_reduce_spec x a bits : find_wf x a bits ->
   allbits (find_reduce x a bits) /\ length (find_reduce x a bits) = length x /\
   first_idx 0 (find_reduce x a bits) = first_idx (aval a) x.
 Proof.
-  intros [Hw _]. rewrite find_reduce_map by (intros E; apply Hw; exact E).
+  intros Hw. rewrite find_reduce_map by (intros E; apply Hw; exact E).
   split; [|split].
   - apply Forall_forall. intros c Hc. apply in_map_iff in Hc. destruct Hc as [b [<- Hb]].
     destruct bits.
@@ -548,51 +542,69 @@ Definition find_result (x : list Z) (av : Z) (e : earg) (F : Z -> list Z) : opti
   | EVal v => (None, if found then F (Z.of_nat ix) else F v)
   end.
 
-(** effective f of a call (None when both f and cs_f are given) *)
+(** effective f of a call *)
 Definition find_F (f : option (Z -> list Z)) (cs_f : option (Z -> Z -> list Z)) : option (Z -> list Z) :=
   match cs_f, f with
   | None, None => Some (fun i => [i])
   | None, Some f => Some f
   | Some cs, None => Some (fun i => cs 0 i)
-  | Some _, Some _ => None
+  | Some _, Some f => Some f
   end.
 
 (** ** find returns f(index of the first occurrence of a) — or f(e) if a is absent, or the raw
-    pair — for every list, every form of a, e, f, cs_f (not both); cs_f must satisfy (star). *)
+    pair — for every list and every form of a, e, f, cs_f (default, f only, cs_f only, both);
+    a given cs_f must satisfy the docstring's (star) w.r.t. the effective f:
+    cs_f(b, i) = F(i + b) for b in {0, 1} (for the cs_f-only form F(i) = cs_f(0, i)). *)
 Theorem find_correct x a bits e f cs_f F :
   find_wf x a bits ->
   find_F f cs_f = Some F ->
   (forall i j, length (F i) = length (F j)) ->
-  (forall cs, cs_f = Some cs -> forall i, 0 <= i -> cs 1 i = cs 0 (i + 1)) ->
+  (forall cs, cs_f = Some cs -> forall i, 0 <= i -> cs 0 i = F i /\ cs 1 i = F (i + 1)) ->
   find x a bits e f cs_f = Some (find_result x (aval a) e F).
 Proof.
   intros Hwf HF Hlen Hcs.
   destruct (find_reduce_spec x a bits Hwf) as (Rb & Rl & Ri).
   unfold find.
-  assert (Hcrash : match a with
-                   | AInt a1 => (bits && (a1 =? 1) && (length x =? 0)%nat)%bool
-                   | ASec _ => false end = false).
-  { destruct a as [a1|a1]; [|reflexivity]. destruct Hwf as [_ Hn].
-    destruct bits; [|reflexivity]. destruct (Z.eqb_spec a1 1) as [->|]; [|reflexivity].
-    destruct x; [exfalso; apply Hn; auto|reflexivity]. }
-  rewrite Hcrash.
-  assert (G : forall f' cs', (forall i, cs' 0 i = f' i) -> (forall i, 0 <= i -> cs' 1 i = f' (i + 1)) -> F = f' ->
+  assert (G : forall f' cs', (forall i, 0 <= i -> cs' 0 i = f' i) -> (forall i, 0 <= i -> cs' 1 i = f' (i + 1)) -> F = f' ->
               find_core (find_reduce x a bits)
                 match e with ERaw => None | EStr off => Some (Z.of_nat (length (find_reduce x a bits)) + off)
                            | EVal v => Some v end f' cs'
               = Some (find_result x (aval a) e F)).
   { intros f' cs' C0 C1 ->. rewrite (find_core_correct f' cs' C0 C1 Hlen) by exact Rb.
     rewrite Ri, Rl. unfold find_result. destruct e; reflexivity. }
-  destruct cs_f as [cs|], f as [f0|]; cbn [find_F] in HF; try discriminate; injection HF as <-.
-  - apply G; [reflexivity| |reflexivity]. intros i Hi. apply (Hcs cs eq_refl). exact Hi.
+  destruct cs_f as [cs|], f as [f0|]; cbn [find_F] in HF; injection HF as <-.
+  - apply G; [| |reflexivity]; intros i Hi; apply (Hcs cs eq_refl i Hi).
+  - apply G; [| |reflexivity]; intros i Hi; apply (Hcs cs eq_refl i Hi).
   - destruct (cs_of_f_spec f0 Hlen) as [C0 C1]. apply G; auto.
-  - apply G; [intros i; f_equal; ring | intros i _; reflexivity | reflexivity].
+  - apply G; [intros i _; f_equal; ring | intros i _; reflexivity | reflexivity].
 Qed.
 
-(** both f and cs_f given: the call always raises (type_f unbound) *)
-Theorem find_both_refuted x a bits e f cs :
-  find x a bits e (Some f) (Some cs) = None.
-Proof. reflexivity. Qed.
+(** both f and cs_f given (consistent): the same result as with f alone *)
+Corollary find_both_correct x a bits e f cs :
+  find_wf x a bits ->
+  (forall i j, length (f i) = length (f j)) ->
+  (forall i, 0 <= i -> cs 0 i = f i /\ cs 1 i = f (i + 1)) ->
+  find x a bits e (Some f) (Some cs) = Some (find_result x (aval a) e f).
+Proof.
+  intros Hwf Hl Hc. apply find_correct; auto.
+  intros cs' E. injection E as <-. exact Hc.
+Qed.
+
+(** the empty list: f(e), or the raw pair (1, f(0)), for every form of a (incl. public a = 1) *)
+Corollary find_empty a bits e f cs_f F :
+  find_F f cs_f = Some F ->
+  (forall i j, length (F i) = length (F j)) ->
+  (forall cs, cs_f = Some cs -> forall i, 0 <= i -> cs 0 i = F i /\ cs 1 i = F (i + 1)) ->
+  (bits = true -> isbit (aval a)) ->
+  find [] a bits e f cs_f
+  = Some (match e with ERaw => (Some 1, F 0) | EStr off => (None, F (0 + off)) | EVal v => (None, F v) end).
+Proof.
+  intros HF Hl Hc Ha.
+  assert (Hwf : find_wf [] a bits) by (intros E; split; [constructor|auto]).
+  rewrite (find_correct [] a bits e f cs_f F Hwf HF Hl Hc).
+  unfold find_result. cbn. destruct e; reflexivity.
+Qed.
+
 
 (* ------------------------------------------------------------------------------------- *)
 (** ** gcp2 *)
@@ -663,24 +675,22 @@ Definition tape_ok (p : Z) (L : nat) (A : Z) (l : nat) (rbits : list Z) (rdivl :
   0 <= A + (2 ^ Z.of_nat L + rdivl * 2 ^ Z.of_nat l + value rbits) < p.
 
 Lemma gcp2_find p L A B l ra da rb db ix :
-  (1 <= l)%nat -> allbits ra -> allbits rb ->
+  allbits ra -> allbits rb ->
   first_idx 1 (zipw (fun a b => a + b - a * b) (trailing_zeros p L A l ra da) (trailing_zeros p L B l rb db)) = ix ->
   gcp2 p L A B l ra da rb db = Some (2 ^ Z.of_nat ix).
 Proof.
-  intros Hl Ha Hb Hix. unfold gcp2. rewrite zipw_or_fuse.
+  intros Ha Hb Hix. unfold gcp2. rewrite zipw_or_fuse.
   set (z := zipw _ _ _) in *.
   assert (Lz : length z = l).
   { unfold z. rewrite zipw_length; rewrite !trailing_zeros_length; reflexivity. }
   rewrite (find_correct z (AInt 1) true ERaw None (Some (fun b i => [(b + 1) * 2 ^ i]))
              (fun i => [(0 + 1) * 2 ^ i])).
   - unfold find_result. cbn [aval]. rewrite Hix. f_equal. ring.
-  - split.
-    + intros _. split; [|right; reflexivity].
-      unfold z. apply zipw_or_bits; apply trailing_zeros_allbits; assumption.
-    + intros (_ & _ & Hz). rewrite Hz in Lz. cbn [length] in Lz. lia.
+  - intros _. split; [|right; reflexivity].
+    unfold z. apply zipw_or_bits; apply trailing_zeros_allbits; assumption.
   - reflexivity.
   - reflexivity.
-  - intros cs Hcs i Hi. injection Hcs as <-. f_equal.
+  - intros cs Hcs i Hi. injection Hcs as <-. split; [reflexivity|]. f_equal.
     rewrite Z.pow_add_r by lia. ring.
 Qed.
 
@@ -692,7 +702,7 @@ Theorem gcp2_correct p L A B l ra da rb db t :
   gcp2 p L A B l ra da rb db = Some (2 ^ Z.of_nat t).
 Proof.
   intros HlL (La & Ba & Wa) (Lb & Bb & Wb) Ht HA HB Hodd.
-  apply gcp2_find; try assumption; try lia.
+  apply gcp2_find; try assumption.
   apply first_idx_char.
   - rewrite zipw_length; rewrite !trailing_zeros_length; auto.
   - rewrite nth_zipw by (rewrite trailing_zeros_length; lia).
@@ -712,11 +722,11 @@ Qed.
 
 (** both a and b are 0 modulo 2^l: the result is 2^l (outside the number range, see the TODO in the code) *)
 Theorem gcp2_zero p L A B l ra da rb db :
-  (l <= L)%nat -> (1 <= l)%nat -> tape_ok p L A l ra da -> tape_ok p L B l rb db ->
+  (l <= L)%nat -> tape_ok p L A l ra da -> tape_ok p L B l rb db ->
   A mod 2 ^ Z.of_nat l = 0 -> B mod 2 ^ Z.of_nat l = 0 ->
   gcp2 p L A B l ra da rb db = Some (2 ^ Z.of_nat l).
 Proof.
-  intros HlL Hl (La & Ba & Wa) (Lb & Bb & Wb) HA HB.
+  intros HlL (La & Ba & Wa) (Lb & Bb & Wb) HA HB.
   apply gcp2_find; try assumption.
   rewrite !trailing_zeros_zero by assumption.
   rewrite first_idx_absent.
